@@ -56,6 +56,8 @@ MalformedCompact == {"twoParts", "fourParts", "badB64Header", "badB64Payload", "
                      "headerAlgNotAString", "lineBreakInSegment", "strayBitsInSegment", "strayBitsInHeaderSegment"}
 (* what the library's own signing utility is asked to sign: it either refuses, or what it returns verifies *)
 SignedPayloads == {"empty", "oneByte", "json", "binary"}
-MalformedJWK == {"unknownKty", "unknownCrv", "missingX", "shortX", "longX", "zeroPaddedX", "zeroPaddedY", "strippedY", "offCurve", "badB64X", "ktyCrvMismatch", "emptyFields", "missingY", "yOnOKP", "zeroPoint"}
+MalformedJWK == {"unknownKty", "unknownCrv", "missingX", "shortX", "longX", "zeroPaddedX", "zeroPaddedY", "strippedY", "offCurve", "badB64X", "ktyCrvMismatch", "emptyFields", "missingY", "yOnOKP", "zeroPoint",
+                 \* JWK member values are case-sensitive: another letter case of a known kty / crv is an unknown one
+                 "ktyLetterCase", "crvLetterCase"}
 ASSUME PrintT("MALFORMED " \o ToJson([compact |-> MalformedCompact, jwk |-> MalformedJWK, payloads |-> SignedPayloads]))
 =============================================================================
